@@ -143,6 +143,21 @@ def sweep(ctx, n):
                 o.add(magpy.Sensor())
             if public_state(c) != snap_c:
                 bad(f"orig-mutation-leaks:{kind}", "mutating the original changed the copy")
+        # originals whose style is still lazily un-initialised, copied with the same style dict plus overrides
+        for cls in CLASSES[:6]:
+            nps = np.random.default_rng(rng.randrange(2**31))
+            d = {"color": "red", "opacity": 0.5}
+            from oracles.sources import params as _params
+            ctor = getattr(magpy.magnet, cls, None) or getattr(magpy.current, cls, None) or getattr(magpy.misc, cls)
+            o = ctor(**_params(cls, nps), style=d)
+            c = o.copy(style=d, style_color="blue", style_opacity=0.9)
+            done += 1
+            if d != {"color": "red", "opacity": 0.5}:
+                bad("copy-kwargs-mutate-caller-dict", "copy(style=d, style_color=...) changed the caller's dict d", {"class": cls, "dict_after": d})
+            if o.style.color != "red" or o.style.opacity != 0.5:
+                bad("copy-kwargs-leak-into-original", f"copy keyword overrides leaked into the original (color {o.style.color!r}, opacity {o.style.opacity!r})", {"class": cls})
+            if c.style.color != "blue":
+                bad("copy-kwargs-not-applied", "copy keyword arguments not applied to the copy", {"class": cls})
         # empty label
         s = magpy.Sensor(style_label="")
         try:
